@@ -313,6 +313,11 @@ func c20ExtremesUnit(unit string, env *fw.Env) *fw.Result {
 	return res
 }
 
+// JSON names of the settings with a documented constraint (a zero / absent value violates it)
+var c20RequiredKeys = []string{"version", "wal_dir", "sst_dir", "memtable_size", "max_memtables", "sstable_block_size", "sstable_index_size",
+	"compaction_levels", "compaction_ratio", "read_only_tx_ttl", "read_write_tx_ttl", "idle_tx_timeout", "tx_cleanup_interval",
+	"tx_warning_threshold", "tx_critical_threshold"}
+
 // opening with stored / damaged manifests over existing data
 func c20OpenUnit(unit string, env *fw.Env) *fw.Result {
 	res := fw.NewResult()
@@ -384,6 +389,24 @@ func c20OpenUnit(unit string, env *fw.Env) *fw.Result {
 			}
 			defer e.Close()
 			got := e.VerifConfig()
+			// a stored object that lacks a setting with a documented constraint is invalid (the setting is absent, not
+			// positive): whatever value the engine made up for it, it did not come from the stored configuration
+			if present {
+				var obj map[string]json.RawMessage
+				if json.Unmarshal(data, &obj) != nil || obj == nil {
+					if json.Valid(data) {
+						viol("non-object-manifest-accepted", name+": the stored manifest is not a configuration object but the database opened", map[string]any{"case": name})
+						return
+					}
+				} else {
+					for _, k := range c20RequiredKeys {
+						if v, ok := obj[k]; !ok || strings.TrimSpace(string(v)) == "null" {
+							viol("missing-setting-defaulted", fmt.Sprintf("%s: the stored configuration has no %q (a setting with a documented constraint) but the database opened", name, k), map[string]any{"case": name})
+							return
+						}
+					}
+				}
+			}
 			if cfgEqual(got, def) {
 				viol("fell-back-to-defaults", name+": the stored configuration is unreadable/invalid but the database opened with the default configuration over existing data", map[string]any{"case": name})
 				return
@@ -430,6 +453,29 @@ func c20OpenUnit(unit string, env *fw.Env) *fw.Result {
 				openCase(fmt.Sprintf("byte %d class %d", pos, ci), d, true)
 			}
 		}
+	case "missing":
+		// well-formed manifests with a setting left out (or nothing in them at all)
+		var obj map[string]json.RawMessage
+		if err := json.Unmarshal(good, &obj); err != nil {
+			res.HarnessErr = "stored manifest is not an object: " + err.Error()
+			return res
+		}
+		for _, k := range c20RequiredKeys {
+			o := map[string]json.RawMessage{}
+			for kk, v := range obj {
+				if kk != k {
+					o[kk] = v
+				}
+			}
+			d, _ := json.MarshalIndent(o, "", "  ")
+			openCase("setting "+k+" removed", d, true)
+			o[k] = json.RawMessage("null")
+			d, _ = json.MarshalIndent(o, "", "  ")
+			openCase("setting "+k+" null", d, true)
+		}
+		openCase("empty object", []byte("{}"), true)
+		openCase("null", []byte("null"), true)
+		openCase("empty array", []byte("[]"), true)
 	case "crash":
 		// crash cuts of SaveManifest over the existing database (configuration update)
 		upd := cloneCfg(orig)
@@ -490,10 +536,10 @@ func init() {
 	fw.Register(&fw.Check{
 		ID:    "C20",
 		Level: "exploration",
-		Rule: "constraint table of 15 documented clauses written independently of Validate; for 3 valid base configurations: every single-field deviation over {bound-1, bound, bound+1, typical}, every pair of fields over all their values, and the full product warning x critical threshold in [-1,101]^2: Validate accepts <=> table; a rejected configuration makes SaveManifest fail without a single file-system call (recorded through the os shim); an accepted one is stored and loaded back equal in every field. Thorough tier: every triple of the 15 constrained fields over all their values, and every single / pair assignment of extreme values (int64 and int32 limits, 2^53+1, unknown sync modes, long and oddly-charactered directory names) to the fields without a documented constraint: valid, stored, loaded back equal. Open: a database created with an all-non-default configuration runs with it (also after reopen; custom directories used); every truncation of the stored manifest, every single-byte damage x 5 value classes and every crash cut / torn write of a manifest update over existing data: opening fails with an error or runs with the stored (old or new) configuration - never with defaults. Non-trivial = configurations violating a clause / damaged manifests",
+		Rule: "constraint table of 15 documented clauses written independently of Validate; for 3 valid base configurations: every single-field deviation over {bound-1, bound, bound+1, typical}, every pair of fields over all their values, and the full product warning x critical threshold in [-1,101]^2: Validate accepts <=> table; a rejected configuration makes SaveManifest fail without a single file-system call (recorded through the os shim); an accepted one is stored and loaded back equal in every field. Thorough tier: every triple of the 15 constrained fields over all their values, and every single / pair assignment of extreme values (int64 and int32 limits, 2^53+1, unknown sync modes, long and oddly-charactered directory names) to the fields without a documented constraint: valid, stored, loaded back equal. Open: a database created with an all-non-default configuration runs with it (also after reopen; custom directories used); every truncation of the stored manifest, every constrained setting removed or null, an empty object / null / array, every single-byte damage x 5 value classes and every crash cut / torn write of a manifest update over existing data: opening fails with an error or runs with the stored (old or new) configuration - never with defaults, and never when the stored object lacks a setting that has a documented constraint. Non-trivial = configurations violating a clause / damaged manifests",
 		Assumptions: []string{"a missing manifest is 'not found' (a new database), not 'invalid'", "a damaged byte that yields another valid configuration cannot be detected without a checksum and is not flagged; falling back to defaults is"},
 		Units: func(tier string) []string {
-			us := []string{"validate", "open/trunc", "open/byte/0/4", "open/byte/1/4", "open/byte/2/4", "open/byte/3/4", "open/crash"}
+			us := []string{"validate", "open/missing", "open/trunc", "open/byte/0/4", "open/byte/1/4", "open/byte/2/4", "open/byte/3/4", "open/crash"}
 			if tier == "thorough" {
 				for i := 0; i < 12; i++ {
 					us = append(us, fmt.Sprintf("validate-triples/%d/12", i))
